@@ -118,6 +118,10 @@ class ThreadWorker(base.Worker):
         self._wrap_future(fs, conn)
 
     def accept(self, server, listener):
+        # several listeners can be ready in the same poll:
+        # leave the connection in the backlog once the limit is reached
+        if self.nr_conns >= self.worker_connections:
+            return
         try:
             sock, client = listener.accept()
             # initialize the connection object
